@@ -34,7 +34,7 @@ const (
 	selfDesc = "This function list"
 )
 
-const shellTimeout = 30 * time.Second
+const shellTimeout = 90 * time.Second
 
 // ---- reference (from the statement) -----------------------------------------
 
@@ -827,6 +827,12 @@ type outcome struct {
 	calls      [][]string // echo calls after S
 	leftovers  []string   // names found in the sandbox afterwards
 	sandboxErr string
+	big        bool // run under the stack-raising wrapper
+}
+
+// wrapFailed: the wrapper could not raise the stack limit (nothing was run).
+func (o *outcome) wrapFailed() bool {
+	return o.big && o.res.Status == wrapStatus && !o.sourced && len(o.res.Stdout) == 0
 }
 
 func parseOutcome(o *outcome) {
@@ -916,8 +922,21 @@ func newEnv(r *mon.Run) (*env, error) {
 	return e, nil
 }
 
-// runShell sources file fn under sh in a fresh empty sandbox below dir.
-func (e *env) runShell(sh shellSpec, stub, dir, fn string, count bool) *outcome {
+// bigStackKB is the stack limit (KiB) under which the shells of the many-rows
+// and kept-result engines run: dash and bash recurse over the command list of
+// a function body, and bash 5.2 overflows the default 8 MiB stack at some
+// 20,000-40,000 commands.  That limit is the shell's, not the function's.
+const bigStackKB = 1 << 20
+
+const bigShellTimeout = 10 * time.Minute
+
+// wrapStatus is the exit status of the stack-raising wrapper when it fails.
+const wrapStatus = 97
+
+// runShell sources file fn under sh in a fresh empty sandbox below dir.  With
+// big set the shell is started by a dash wrapper that first raises the stack
+// limit (ulimit -s, then exec), and the infrastructure watchdog is longer.
+func (e *env) runShell(sh shellSpec, stub, dir, fn string, count, big bool) *outcome {
 	sbx := filepath.Join(dir, "sbx-"+sh.name)
 	os.RemoveAll(sbx)
 	o := &outcome{stub: stub}
@@ -930,10 +949,17 @@ func (e *env) runShell(sh shellSpec, stub, dir, fn string, count bool) *outcome 
 		script = scriptHex
 	}
 	args := append(append([]string{}, sh.args...), "-c", script, "sh", fn)
+	path, to := sh.path, shellTimeout
+	if big {
+		wrap := fmt.Sprintf(`ulimit -s %d || exit %d; exec "$@"`, bigStackKB, wrapStatus)
+		args = append([]string{"-c", wrap, "wrap", sh.path}, args...)
+		path, to = shells[0].path, bigShellTimeout
+	}
 	o.res = mon.Proc{
-		Path: sh.path, Args: args, Dir: sbx, Timeout: shellTimeout,
+		Path: path, Args: args, Dir: sbx, Timeout: to,
 		Env: []string{"PATH=" + e.stubDir, "LC_ALL=C", "HOME=" + sbx},
 	}.Run()
+	o.big = big
 	if count {
 		e.r.Count("shell_runs", 1)
 		e.r.Count("shell_runs:"+sh.name, 1)
@@ -980,9 +1006,41 @@ func q(s string) string {
 	return fmt.Sprintf("%q", s)
 }
 
+// alignEligible says whether the alignment of the table is asserted: every
+// name is made of printable ASCII (0x21-0x7e), for which "the same column"
+// has one meaning (bytes = characters = terminal cells).
+func alignEligible(texts []string) bool {
+	for _, t := range texts {
+		name, _, empty := refSplit(t)
+		if empty {
+			continue
+		}
+		for k := 0; k < len(name); k++ {
+			if name[k] < 0x21 || name[k] > 0x7e {
+				return false
+			}
+		}
+	}
+	return true
+}
+
+// descCol is the byte offset at which the "- " of a row begins.
+func descCol(row string) int {
+	i := strings.IndexByte(row, ' ')
+	if i < 0 {
+		return -1
+	}
+	for i < len(row) && row[i] == ' ' {
+		i++
+	}
+	return i
+}
+
 // judge applies the oracle to one shell run: quote-safety always, row
-// fidelity against the reference split of texts when fidelity is set.
-func judge(o *outcome, sh string, fidelity bool, texts []string) (fs []finding, rowsCompared int) {
+// fidelity against the reference split of texts when fidelity is set, and,
+// with aligned, that the rows form ONE table (the description column begins
+// at the same offset in every row of the whole listing).
+func judge(o *outcome, sh string, fidelity, aligned bool, texts []string) (fs []finding, rowsCompared, rowsAligned int) {
 	add := func(key, format string, a ...any) {
 		fs = append(fs, finding{key, "under " + sh + ": " + fmt.Sprintf(format, a...)})
 	}
@@ -1074,6 +1132,24 @@ func judge(o *outcome, sh string, fidelity bool, texts []string) (fs []finding, 
 	case len(extra) > 0:
 		add("row-extra", "%d unexpected or repeated rows; first %s", len(extra), extra[0])
 	}
+	if !aligned || len(fs) > 0 {
+		return
+	}
+	col, first := -1, -1
+	for k, row := range rows {
+		if strings.HasPrefix(row, " ") {
+			continue // the optional row of a tagged line without text
+		}
+		c := descCol(row)
+		switch {
+		case col < 0:
+			col, first = c, k
+		case c != col:
+			add("rows-misaligned", "the rows are not one table: the description of row %d %s begins at column %d, that of row %d %s at column %d", k, q(clip(row, 120)), c, first, q(clip(rows[first], 120)), col)
+			return
+		}
+		rowsAligned++
+	}
 	return
 }
 
@@ -1114,33 +1190,60 @@ type checker struct {
 	minimised map[string]int
 }
 
-// check runs one function text under every shell and returns the findings.
-func (c *checker) check(dir, src string, stub string, fidelity bool, texts []string, rowsAfterLong int, each func(sh shellSpec, o *outcome, fs []finding)) (ok bool) {
-	fn := filepath.Join(dir, "fn.sh")
-	if err := os.WriteFile(fn, []byte(src), 0o644); err != nil {
+// checkReq is one function text to be sourced and judged.
+type checkReq struct {
+	dir, src, stub string
+	fidelity       bool
+	aligned        bool // assert one table (see alignEligible)
+	big            bool // raised stack limit, long watchdog
+	texts          []string
+	rowsAfterLong  int
+	shells         []shellSpec // nil = all
+	prefix         string      // counter prefix of the engine ("" = payload engine)
+}
+
+// check runs one function text under the shells and hands the findings to each.
+func (c *checker) check(rq checkReq, each func(sh shellSpec, o *outcome, fs []finding)) (ok bool) {
+	fn := filepath.Join(rq.dir, "fn.sh")
+	if err := os.WriteFile(fn, []byte(rq.src), 0o644); err != nil {
 		c.r.Inconclusive("writing function file: " + err.Error())
 		return false
 	}
 	defer os.Remove(fn)
+	shs := rq.shells
+	if shs == nil {
+		shs = shells
+	}
 	var ref [][]string
 	var refSh string
-	for _, sh := range shells {
-		o := c.runShell(sh, stub, dir, fn, true)
+	for _, sh := range shs {
+		o := c.runShell(sh, rq.stub, rq.dir, fn, true, rq.big)
 		if o.res.TimedOut {
-			c.r.Inconclusive(fmt.Sprintf("%s did not finish within %s (infrastructure watchdog)", sh.name, shellTimeout))
+			c.r.Inconclusive(fmt.Sprintf("%s did not finish within the infrastructure watchdog (%s / %s)", sh.name, shellTimeout, bigShellTimeout))
 			continue
 		}
 		if o.sandboxErr != "" {
 			c.r.Inconclusive("sandbox: " + o.sandboxErr)
 			continue
 		}
-		fs, n := judge(o, sh.name, fidelity, texts)
+		if o.wrapFailed() {
+			c.r.Inconclusive(fmt.Sprintf("the stack limit could not be raised to %d KiB for %s: %s", bigStackKB, sh.name, q(string(o.res.Stderr))))
+			continue
+		}
+		fs, n, na := judge(o, sh.name, rq.fidelity, rq.aligned, rq.texts)
 		c.r.Count("echo_calls_observed", int64(len(o.calls)+len(o.preCalls)))
 		c.r.Count("rows_compared", int64(n))
-		if n > 0 && rowsAfterLong > 0 {
+		c.r.Count("rows_checked_for_one_table", int64(na))
+		if rq.prefix != "" {
+			c.r.Count(rq.prefix+"shell_runs", 1)
+			c.r.Count(rq.prefix+"shell_runs:"+sh.name, 1)
+			c.r.Count(rq.prefix+"rows_compared", int64(n))
+			c.r.Count(rq.prefix+"rows_checked_for_one_table", int64(na))
+		}
+		if n > 0 && rq.rowsAfterLong > 0 {
 			// the comparison was made against a reference that includes the rows
 			// of the tagged lines after the first over-long line
-			c.r.Count("rows_after_a_long_line_checked", int64(rowsAfterLong))
+			c.r.Count("rows_after_a_long_line_checked", int64(rq.rowsAfterLong))
 			c.r.Count("shell_runs_with_rows_after_a_long_line", 1)
 		}
 		// every shell must have been handed the same words
@@ -1216,13 +1319,13 @@ func (c *checker) minimise(dir string, texts []string, key string, sh shellSpec)
 		}
 		p := filepath.Join(dir, "min.sh")
 		os.WriteFile(p, fn, 0o644)
-		o := c.runShell(sh, "nul", dir, p, false)
+		o := c.runShell(sh, "nul", dir, p, false, false)
 		os.Remove(p)
 		if o.res.TimedOut {
 			continue
 		}
 		fid, _ := fidelityEligible([]string{t})
-		fs, _ := judge(o, sh.name, fid, []string{t})
+		fs, _, _ := judge(o, sh.name, fid, false, []string{t})
 		for _, f := range fs {
 			if f.key == key {
 				return map[string]string{"payload_quoted": q(pl), "payload_hex": hex.EncodeToString([]byte(clip(pl, 512))), "function": clip(string(fn), 2048), "what": f.what}
@@ -1309,8 +1412,12 @@ func (c *checker) payload(i int) {
 		r.Distinct(sig)
 	}
 	fidelity, why := fidelityEligible(texts)
+	aligned := alignEligible(texts)
 	if fidelity {
 		r.Count("fidelity_payloads", 1)
+		if aligned {
+			r.Count("one_table_payloads", 1)
+		}
 	} else {
 		r.Count("quote_safety_only_payloads:"+why, 1)
 	}
@@ -1360,7 +1467,7 @@ func (c *checker) payload(i int) {
 	if overTagged+overUntagged > 0 && fidelity {
 		r.Count("fidelity_payloads_with_line_over_64k", 1)
 	}
-	c.check(dir, string(fn), stub, fidelity, texts, rowsAfterLong, report("GenFuncList", string(fn)))
+	c.check(checkReq{dir: dir, src: string(fn), stub: stub, fidelity: fidelity, aligned: fidelity && aligned, texts: texts, rowsAfterLong: rowsAfterLong}, report("GenFuncList", string(fn)))
 
 	// (2) for a sample, through Converter.From on a .sh file of comment lines.
 	if i%4 == 0 {
@@ -1384,7 +1491,7 @@ func (c *checker) payload(i int) {
 		if overTagged+overUntagged > 0 {
 			r.Count("converter_from_payloads_with_line_over_64k", 1)
 		}
-		c.check(dir, string(out), stub, fidelity, refTexts(string(out)), rowsAfterLong, report("Converter.From", string(out)))
+		c.check(checkReq{dir: dir, src: string(out), stub: stub, fidelity: fidelity, aligned: fidelity && aligned, texts: refTexts(string(out)), rowsAfterLong: rowsAfterLong}, report("Converter.From", string(out)))
 	}
 }
 
@@ -1401,7 +1508,7 @@ func (c *checker) probe() {
 	os.WriteFile(fn, []byte("tab_list() {\n        echo 'a' $(touch PROBE1) 'b c'\n        echo 'x' | tee PROBE2 >/dev/null\n        echo 'it'\\''s'\n        nonexistent_command_c18\n}\n"), 0o644)
 	for _, sh := range shells {
 		for _, stub := range []string{"nul", "hex"} {
-			o := c.runShell(sh, stub, dir, fn, false)
+			o := c.runShell(sh, stub, dir, fn, false, false)
 			sort.Strings(o.leftovers)
 			ok := !o.res.TimedOut && o.sourced && len(o.calls) == 2 && len(o.calls[0]) == 2 && o.calls[0][1] == "b c" &&
 				len(o.calls[1]) == 1 && o.calls[1][0] == "it's" &&
@@ -1415,14 +1522,54 @@ func (c *checker) probe() {
 	}
 }
 
+// oracleProbe shows that the row oracle refuses what the many-rows engine is
+// there to find: a row printed twice with different padding, and a listing
+// that is two tables.
+func (c *checker) oracleProbe() {
+	mk := func(rows ...string) *outcome {
+		o := &outcome{stub: "nul", sourced: true, done: "D0"}
+		for _, r := range rows {
+			o.calls = append(o.calls, []string{r})
+		}
+		return o
+	}
+	texts := []string{" die Print and exit", " a_long_name_here x", "die  Print and exit"}
+	keys := func(o *outcome) string {
+		fs, _, _ := judge(o, "probe", true, alignEligible(texts), texts)
+		var ks []string
+		for _, f := range fs {
+			ks = append(ks, f.key)
+		}
+		return strings.Join(ks, ",")
+	}
+	row := func(w int, n, d string) string { return fmt.Sprintf("%-*s- %s", w, n, d) }
+	self := row(18, selfName, selfDesc)
+	good := mk(row(18, "a_long_name_here", "x"), row(18, "die", "Print and exit"), self)
+	twice := mk(row(18, "a_long_name_here", "x"), row(18, "die", "Print and exit"), row(10, "die", "Print and exit"), self)
+	split := mk(row(18, "a_long_name_here", "x"), row(10, "die", "Print and exit"), self)
+	for _, p := range []struct {
+		o    *outcome
+		want string
+	}{{good, ""}, {twice, "row-extra"}, {split, "rows-misaligned"}} {
+		if got := keys(p.o); got != p.want {
+			c.r.Inconclusive(fmt.Sprintf("oracle probe: judge gave %q, expected %q", got, p.want))
+			continue
+		}
+		c.r.Count("oracle_probe_ok", 1)
+	}
+}
+
 // Run is the check.
 func Run(r *mon.Run) {
-	r.Rule = "cases: payload i is generated from Rng(payload,i): 1-40 '# TABDOC:' lines (payloads 0 and 1: every fragment of the pool once as description and once as name) interleaved with comment/near-miss lines; texts are assembled from a pool of quote breakers, command substitutions, separators/redirections to canary paths, expansions, control bytes, invalid UTF-8, Unicode whitespace, random bytes (no LF, no NUL), duplicates (exact and re-spaced), prefix extensions, empty texts, lines up to 64 KiB; every 9th payload (i%9==4) additionally carries 1-4 lines LONGER than 64 KiB (64 KiB+1 ... 300 KiB; in every second such payload half of them 1 MiB+1 ... 4 MiB+1): untagged comment/near-miss blob lines and/or tagged lines whose description is that long, placed before some tagged lines (reference rows include the lines after the long one), 4 of 5 of them generated in fidelity mode; 60% of the payloads are generated free of TAB/VT/FF/0xFF and of non-space whitespace at name/description edges (row fidelity asserted, decided by a predicate on the final payload), the others are unrestricted (quote-safety only). Every payload: GenFuncList(payload) sourced alone under dash, bash and bash --posix with echo replaced by a recording function (NUL-framed; every 8th payload od-hex), cwd a fresh empty directory, PATH a stub directory; every 4th payload additionally through Converter.From (AddListFunction) on a .sh file, whole output sourced. distinct_nontrivial = distinct sets of TABDOC texts (hash) having at least one non-blank text"
+	r.Rule = "cases: payload i is generated from Rng(payload,i): 1-40 '# TABDOC:' lines (payloads 0 and 1: every fragment of the pool once as description and once as name) interleaved with comment/near-miss lines; texts are assembled from a pool of quote breakers, command substitutions, separators/redirections to canary paths, expansions, control bytes, invalid UTF-8, Unicode whitespace, random bytes (no LF, no NUL), duplicates (exact and re-spaced), prefix extensions, empty texts, lines up to 64 KiB; every 9th payload (i%9==4) additionally carries 1-4 lines LONGER than 64 KiB (64 KiB+1 ... 300 KiB; in every second such payload half of them 1 MiB+1 ... 4 MiB+1): untagged comment/near-miss blob lines and/or tagged lines whose description is that long, placed before some tagged lines (reference rows include the lines after the long one), 4 of 5 of them generated in fidelity mode; 60% of the payloads are generated free of TAB/VT/FF/0xFF and of non-space whitespace at name/description edges (row fidelity asserted, decided by a predicate on the final payload), the others are unrestricted (quote-safety only). Every payload: GenFuncList(payload) sourced alone under dash, bash and bash --posix with echo replaced by a recording function (NUL-framed; every 8th payload od-hex), cwd a fresh empty directory, PATH a stub directory; every 4th payload additionally through Converter.From (AddListFunction) on a .sh file, whole output sourced. distinct_nontrivial = distinct sets of TABDOC texts (hash) having at least one non-blank text. Where every name of a fidelity payload is printable ASCII, the listing must also be ONE table: the description column begins at the same offset in every row (rows-misaligned). ENGINE many (MANY ROWS): payload i from Rng(many,i) has 1,000 ... 20,000 tagged lines (thorough: ... 200,000; sizes from a fixed list plus 0-199), cut into regions of 100-5,500 lines each with its own range of name lengths (1-5, 3-8, 6-11, 12-28, 30-60; every third payload starts with more than 1,000 lines of names shorter than the function's own), in half of the payloads 1-3 single names of 64-103 bytes anywhere; names of printable ASCII with shell metacharacters (every 4th payload: pool fragments mixed in, then no one-table assertion), descriptions from the pool / quote breakers, 2% empty texts, filler lines; exact and re-spaced duplicates of earlier lines are placed about 512, 1024, 2048, 3000, 4096, 6000, 10000, 20000, 50000, 100000 lines (+-64) after the original where the payload is that long, between the first and the last 40 lines, and at random distances; GenFuncList (every 4th: Converter.From, whole output) sourced under ONE shell per payload by index (thorough: all three) with the stack limit raised, judged against the reference over the WHOLE payload: one row per distinct (name, description), sorted, one table. ENGINE keep: round j from Rng(keep,j) has 4-7 distinct fidelity payloads of 1-1,400 lines; by j%4: GenFuncList / Converter.From, sequential (call 1 for payload 1, then 1-6 later calls for the other payloads; every returned slice is kept, copied at once and compared with the copy after the last call; the slice kept from call 1 is then sourced and judged against payload 1) or concurrent (4 resp. 8 goroutines, 12 resp. 25 calls each; every result compared on return, and again after the goroutine's next call, with the bytes the same payload gives alone; a differing result is sourced beside the one generated alone: it is a violation only if the shell observes other words or the judge fails)"
 	r.Assumptions = []string{
 		"dash 0.5.12 and bash 5.2 (normal and --posix) stand for 'a POSIX shell'; LC_ALL=C",
 		"the property ends where the word is handed to echo: what a real echo does with backslashes or -n is not observed",
 		"row fidelity is asserted only for payloads without TAB/VT/FF/0xFF in any text and without non-space Unicode whitespace at the edges of a name or description (the statement's 'trimmed' is not defined for those); a tagged line without text may yield no row or an empty row",
 		"non-TABDOC payload lines are comment or blank lines, so that the Converter.From output can be sourced whole without running harness text",
+		"'one table' (aligned over the whole listing) is asserted only where every name is printable ASCII, so that a column has one meaning; how wide the name column is is not asserted, only that it is the same in every row",
+		"many-rows and kept-result shells are started with `ulimit -s 1048576` (a dash wrapper that execs the shell): dash and bash recurse over a function body's command list, and bash 5.2 overflows the default 8 MiB stack somewhere between 20,000 and 40,000 echo commands - a limit of the shell, not of the listing; their watchdog is 10 min (infrastructure, inconclusive when it fires)",
+		"a caller may keep the slice returned by GenFuncList / Converter.From: it must go on being the function of the payload it was generated for, whatever is generated later or at the same time (the statement speaks of THE listing function of THE payload); a change of the kept bytes is a violation only when a shell that sources them observes other words than before or the judge fails",
 	}
 	for _, sh := range shells {
 		if _, err := os.Stat(sh.path); err != nil {
@@ -1438,6 +1585,7 @@ func Run(r *mon.Run) {
 	c := &checker{env: e, minimised: map[string]int{}}
 	if !r.Replaying() {
 		c.probe()
+		c.oracleProbe()
 	}
 	n := r.N(600, 15000)
 	if r.WantEngine("payload") {
@@ -1463,6 +1611,40 @@ func Run(r *mon.Run) {
 				ns++
 			}
 		}
+	}
+	// The many-rows payloads and the kept-result rounds run beside the ordinary
+	// payloads (which thereby are "other calls at the same time" as well).
+	nMany := r.N(12, 48)
+	nKeep := r.N(48, 480)
+	var wg sync.WaitGroup
+	t0 := time.Now()
+	if r.WantEngine("many") {
+		wg.Add(1)
+		go func() {
+			defer wg.Done()
+			defer func() { r.Logf("engine many done after %s", time.Since(t0).Round(time.Millisecond)) }()
+			mon.Parallel(nMany, 4, func(i int) {
+				if !r.Want("many", i) {
+					return
+				}
+				c.many(i)
+			})
+		}()
+	}
+	if r.WantEngine("keep") {
+		wg.Add(1)
+		go func() {
+			defer wg.Done()
+			defer func() { r.Logf("engine keep done after %s", time.Since(t0).Round(time.Millisecond)) }()
+			mon.Parallel(nKeep, 3, func(j int) {
+				if !r.Want("keep", j) {
+					return
+				}
+				c.keep(j)
+			})
+		}()
+	}
+	if r.WantEngine("payload") {
 		mon.Parallel(n, runtime.NumCPU(), func(i int) {
 			if !r.Want("payload", i) {
 				return
@@ -1470,6 +1652,8 @@ func Run(r *mon.Run) {
 			c.payload(i)
 		})
 	}
+	r.Logf("engine payload done after %s", time.Since(t0).Round(time.Millisecond))
+	wg.Wait()
 	r.Floor("payloads", int64(n*9/10))
 	r.Floor("shell_runs:dash", int64(n*9/10))
 	r.Floor("shell_runs:bash", int64(n*9/10))
@@ -1479,6 +1663,7 @@ func Run(r *mon.Run) {
 	r.Floor("fidelity_payloads", int64(n/4))
 	r.Floor("canary_checks", int64(n*3*9/10))
 	r.Floor("canary_probe_ok", int64(2*len(shells)))
+	r.Floor("oracle_probe_ok", 3)
 	r.Floor("converter_from_payloads", int64(n/5))
 	r.Floor("quote_breaker_fragments_used:squote", int64(n/2))
 	r.Floor("quote_breaker_fragments_used:cmdsubst", int64(n/2))
@@ -1492,4 +1677,52 @@ func Run(r *mon.Run) {
 	r.Floor("fidelity_payloads_with_line_over_64k", int64(n/15))
 	r.Floor("converter_from_payloads_with_line_over_64k", int64(n/60))
 	r.Floor("rows_after_a_long_line_checked", int64(n))
+	r.Floor("one_table_payloads", int64(n/20))
+	r.Floor("rows_checked_for_one_table", int64(n))
+
+	// many rows
+	m := int64(nMany)
+	perShell := m / 4 // quick: one shell per payload, by index
+	if r.Thorough() {
+		perShell = m * 9 / 10
+	}
+	r.Floor("many_payloads", m*9/10)
+	r.Floor("many_shell_runs:dash", perShell)
+	r.Floor("many_shell_runs:bash", perShell)
+	r.Floor("many_shell_runs:bash-posix", perShell)
+	r.Floor("many_tabdoc_lines", m*5000)
+	r.Floor("many_rows_compared", m*4000)
+	r.Floor("many_rows_checked_for_one_table", m*2000)
+	r.Floor("many_fidelity_payloads", m*9/10)
+	r.Floor("many_one_table_payloads", m/2)
+	r.Floor("many_payloads_through:GenFuncList", m/2)
+	r.Floor("many_payloads_through:Converter.From", m/6)
+	r.Floor("many_payloads_with_2000_or_more_lines", m/2)
+	r.Floor("many_payloads_with_10000_or_more_lines", m/6)
+	if r.Thorough() {
+		r.Floor("many_payloads_with_100000_or_more_lines", m/12)
+	}
+	r.Floor("many_payloads_name_width_varies_between_regions", m*3/4)
+	r.Floor("many_payloads_first_1000_lines_narrower_than_later_ones", m/3)
+	r.Floor("many_payloads_first_1000_lines_narrower_than_own_row", m/6)
+	r.Floor("many_duplicates_1000_or_more_lines_apart", m*6)
+	r.Floor("many_duplicates_2000_or_more_lines_apart", m*3)
+	r.Floor("many_duplicates_4000_or_more_lines_apart", m)
+	r.Floor("many_duplicates_10000_or_more_lines_apart", m/3)
+	r.Floor("many_duplicates_across_the_whole_payload", m)
+	r.Floor("many_far_duplicates_exact", m*2)
+	r.Floor("many_far_duplicates_respaced", m*2)
+
+	// kept results
+	k := int64(nKeep)
+	r.Floor("keep_rounds", k*9/10)
+	for _, md := range keepModes {
+		r.Floor("keep_rounds:"+md, k/5)
+	}
+	r.Floor("keep_later_calls", k)
+	r.Floor("keep_results_compared_after_later_calls", k)
+	r.Floor("keep_first_results_sourced_after_later_calls", k*2/5)
+	r.Floor("keep_concurrent_results_compared", k*40)
+	r.Floor("keep_reference_results_sourced", k*2/5)
+	r.Floor("keep_rows_compared", k*10)
 }
